@@ -29,7 +29,8 @@ RULE = ("histories of 5-40 operations from {randomize (same or NEW antenna "
         "Path-loss matrices also come with integer dtype (all ones, 0/1 masks) "
         "next to fractional external-interference path loss. "
         "A third of the transmissions use corrupt_concatenated_data. "
-        "Ops include a re-initialisation the object must refuse (and survive unchanged), post-filters of mixed real / identity / complex kinds, and last_noise is re-read after every later op. ")
+        "Ops include a re-initialisation the object must refuse (and survive unchanged), post-filters of mixed real / identity / complex kinds, and last_noise is re-read after every later op. "
+        "5 % of the path-loss matrices are all-zero. ")
 ASSUMPTIONS = ["post filters are square (Nr_k x Nr_k): the per-receiver split "
                "by antenna count is then unambiguous",
                "the number of users is not changed while a path loss is in "
@@ -298,6 +299,8 @@ def case_history(ctx, rng, idx):
         elif op == "pathloss":
             m.pl = 10.0 ** rng.uniform(-3, 0, size=(m.K, m.K))
             plk = rng.random()
+            if plk > 0.95:
+                m.pl = np.zeros((m.K, m.K))                      # every link blocked
             if plk < 0.15:
                 m.pl = np.ones((m.K, m.K), dtype=int)            # "no loss", integer dtype
             elif plk < 0.3:
